@@ -89,7 +89,7 @@ def fault_enumeration(bases, step=3):
     """C08: from fault-free schedules, inject every end-of-connection cause at every `step`-th prefix on
     each endpoint; the run to quiescence that follows must resolve everything."""
     out = []
-    kinds = [("fault", "cutsrc"), ("fault", "endsrc"), ("fault", "cutsink"), ("fault", "softcut"),
+    kinds = [("fault", "cutsrc"), ("fault", "cutsrcs"), ("fault", "endsrc"), ("fault", "cutsink"), ("fault", "softcut"),
              ("drop_mux", None), ("close", None), ("junk", None)]
     for b in bases:
         cmds = [c for c in b["cmds"] if c["op"] not in ("quiesce", "drop_mux")]
